@@ -9,14 +9,18 @@ Models: `GluonModel.RustStd` (panic conditions of the core functions the tables 
 (the primitive wrappers, `outcome`), `GluonModel.Generated.PrimTable` (the tables themselves, re-extracted from
 /repo on every run), `GluonModel.Frames` (`reset_stack`).  Helper lemmas: `Proofs/Prims.lean`, `Proofs/Frames.lean`.
 
-The property as stated is FALSE on the unchanged tree, in both halves:
+First half (primitives): TRUE of the code since /repo 27c589a (`catch_unwind` in `unpack_and_call`) and proved
+here as `prims_total` with no exception list: a panic of the called function is caught and becomes an error
+value; the two hand-written `extern "C"` entries that bypass `unpack_and_call` are proved panic-free.  The rule
+of the code before that commit is kept as regression statements: `prims_total_old_rule_fails`, one
+`…_old_rule_aborts` witness per primitive, `…_old_rule_abort_iff`; the same conditions now characterise
+exactly when the primitive returns an error value (`…_errors_iff`).
 
-  prims_total :  ∀ e ∈ primTable, ∀ args, (∀ v ∈ args, v.WT) → outcome e.name args ≠ .abort          -- false
-  reset_restores : ∀ s ops, resetStack s.frames.length s.values (s.run ops) = s                       -- false
-
-What is proved instead: the exact set of offending primitives with one `_aborts` witness and (for most) an
-`_abort_iff` characterisation each, `prims_total_partial` for everything else, `reset_frames_only`
-(what the error path really restores), and the `_fixed` variants.
+Second half (the VM after a failed evaluation): TRUE of the code since the D5 fix (the error path of
+`call_thunk_top`/`execute_io_top` pops the values the failed run left) and proved as `reset_restores` /
+`history_clean_partial` (top-level evaluations; a failing *host call of a Gluon function* still leaves its
+frames and values: `host_call_error_leaves`, `history_clean_fails`, finding D16); the old rule (`reset_stack` alone) is kept as `reset_old_rule_frames_only`,
+`reset_restores_old_rule_fails`, `reset_restores_old_rule_iff`, `history_old_rule_leaks`.
 -/
 import GluonModel.Prims
 import GluonModel.Frames
@@ -30,14 +34,32 @@ open GluonModel.Proofs.Prims GluonModel.Proofs.Frames
 
 /-! ## Part (i): primitives -/
 
-/-- Every primitive of the extracted tables that is not in the explicit offending list never aborts the
-    host — for ALL argument lists (well-typed or not).  Rests on: the documented totality of the std
-    functions in `totalSems`, and proofs that the guards of the hand-written wrappers (`array::index`,
-    `array::slice`, `string::split_at`, `string::char_at`, `int::wrapping_rem`, …) imply the preconditions
-    of the panicking std functions they call. -/
-theorem prims_total_partial (e : PrimEntry) (_he : e ∈ primTable) (hn : e.name ∉ offending)
-    (args : List Val) : outcome e.name args ≠ .abort :=
-  outcome_no_abort e.name hn args
+/-- **Main theorem, first half.** No primitive of the extracted tables — for ANY argument list, well-typed
+    or not — aborts the host: the outcome is a value, an error value, or a type error.
+    Mechanism (function.rs:310-330): the Rust function runs under `catch_unwind`; a panic releases the frame
+    lock, pushes the message and returns `Status::Error`.  The two entries that are hand-written
+    `extern "C"` functions (`std.prim.error`, `std.prim.discriminant_value`) are not routed through it and
+    are shown not to panic.  (Not covered: a panic while *pushing the result* — `async_status_push` is
+    outside the `catch_unwind` — or in `Getable::from_value`; none of the modelled types has one.) -/
+theorem prims_total (e : PrimEntry) (_he : e ∈ primTable) (args : List Val) :
+    outcome e.name args ≠ .abort :=
+  outcome_no_abort e.name args
+
+/-- … and in fact for every name (unmodelled names are `unmodelled`, not `abort`; which names are modelled is
+    the driver's `coverage` check). -/
+theorem prims_total_any (name : String) (args : List Val) : outcome name args ≠ .abort :=
+  outcome_no_abort name args
+
+/-- Old rule (before 27c589a, no `catch_unwind`): every primitive outside the offending list never panics
+    inside the wrapper — the guards of the hand-written wrappers (`array::index`, `array::slice`,
+    `string::split_at`, `string::char_at`, `int::wrapping_rem`, …) imply the preconditions of the panicking
+    std functions they call.  Still what makes the *error conditions* below exact. -/
+theorem prims_total_old_rule_partial (e : PrimEntry) (_he : e ∈ primTable) (hn : e.name ∉ offending)
+    (args : List Val) : rawOutcome e.name args ≠ .abort :=
+  rawOutcome_no_abort e.name hn args
+
+/-- A panic of the called function reaches the script as an error value. -/
+theorem caught_panic_is_error_value : catchUnwind .abort = .err := rfl
 
 /-- The offending list, spelled out (syntactic: a change of `offendingSems` must be repeated here). -/
 theorem offending_names : offending =
@@ -48,60 +70,61 @@ theorem offending_names : offending =
      "std.char.prim.to_digit", "std.string.prim.slice", "std.effect.st.string.prim.slice",
      "std.random.prim.gen_int_range"] := rfl
 
-/-- The property's first half fails: an offending primitive aborts the host on well-typed arguments.
+/-- Old rule: the property's first half failed — an offending primitive aborted the host on well-typed arguments.
     (That every offending name is an entry of the real table, and that every table entry of the modelled
     modules has a model, is checked by the driver's `coverage` request on every run — evaluating string
     look-ups over the 239-entry table inside the kernel costs minutes.) -/
-theorem prims_total_fails :
-    ∃ name ∈ offending, ∃ args : List Val, (∀ v ∈ args, v.WT) ∧ outcome name args = .abort := by
+theorem prims_total_old_rule_fails :
+    ∃ name ∈ offending, ∃ args : List Val, (∀ v ∈ args, v.WT) ∧ rawOutcome name args = .abort := by
   refine ⟨"std.int.prim.from_str_radix", by rw [offending_names]; exact List.mem_cons_self,
     [.str [49, 50], .int 99], ?_, rfl⟩
   intro v hv
   simp at hv
   rcases hv with rfl | rfl <;> simp [Val.WT, InI64, i64Min, i64Max]
 
-/-! One witness per offending primitive (inputs replayed on the real code by the harness). -/
+/-! Old rule: one witness per offending primitive (`abort` = the called function panics; these inputs are
+    replayed on the real code by the harness, where they now must give an error value). -/
 
-theorem int_from_str_radix_aborts : sem_int_from_str_radix [.str [49, 50], .int 99] = .abort := rfl
-theorem int_shl_aborts : sem_int_shl [.int 1, .int 100] = .abort := rfl
-theorem int_arithmetic_shr_aborts : sem_int_arithmetic_shr [.int 1, .int 64] = .abort := rfl
-theorem int_logical_shr_aborts : sem_int_logical_shr [.int 1, .int (-1)] = .abort := rfl
-theorem int_pow_aborts : sem_int_pow [.int 10, .int 100] = .abort := rfl
-theorem int_abs_aborts : sem_int_abs [.int i64Min] = .abort := rfl
-theorem int_rem_aborts : sem_int_rem [.int i64Min, .int (-1)] = .abort := rfl
-theorem int_rem_euclid_aborts : sem_int_rem_euclid [.int i64Min, .int (-1)] = .abort := rfl
-theorem int_wrapping_div_aborts : sem_int_wrapping_div [.int 1, .int 0] = .abort := rfl
-theorem int_overflowing_div_aborts : sem_int_overflowing_div [.int 1, .int 0] = .abort := rfl
-theorem byte_shl_aborts : sem_byte_shl [.byte 1, .byte 9] = .abort := rfl
-theorem byte_shr_aborts : sem_byte_shr [.byte 1, .byte 8] = .abort := rfl
-theorem byte_pow_aborts : sem_byte_pow [.byte 2, .int 8] = .abort := rfl
-theorem byte_wrapping_div_aborts : sem_byte_wrapping_div [.byte 1, .byte 0] = .abort := rfl
-theorem byte_overflowing_div_aborts : sem_byte_overflowing_div [.byte 1, .byte 0] = .abort := rfl
-theorem char_is_digit_aborts : sem_char_is_digit [.char 97, .int 99] = .abort := rfl
-theorem char_to_digit_aborts : sem_char_to_digit [.char 97, .int 0] = .abort := rfl
-theorem string_slice_aborts : sem_string_slice [.str [97, 98, 99], .int 2, .int 1] = .abort := rfl
-theorem st_string_slice_aborts :
+theorem int_from_str_radix_old_rule_aborts : sem_int_from_str_radix [.str [49, 50], .int 99] = .abort := rfl
+theorem int_shl_old_rule_aborts : sem_int_shl [.int 1, .int 100] = .abort := rfl
+theorem int_arithmetic_shr_old_rule_aborts : sem_int_arithmetic_shr [.int 1, .int 64] = .abort := rfl
+theorem int_logical_shr_old_rule_aborts : sem_int_logical_shr [.int 1, .int (-1)] = .abort := rfl
+theorem int_pow_old_rule_aborts : sem_int_pow [.int 10, .int 100] = .abort := rfl
+theorem int_abs_old_rule_aborts : sem_int_abs [.int i64Min] = .abort := rfl
+theorem int_rem_old_rule_aborts : sem_int_rem [.int i64Min, .int (-1)] = .abort := rfl
+theorem int_rem_euclid_old_rule_aborts : sem_int_rem_euclid [.int i64Min, .int (-1)] = .abort := rfl
+theorem int_wrapping_div_old_rule_aborts : sem_int_wrapping_div [.int 1, .int 0] = .abort := rfl
+theorem int_overflowing_div_old_rule_aborts : sem_int_overflowing_div [.int 1, .int 0] = .abort := rfl
+theorem byte_shl_old_rule_aborts : sem_byte_shl [.byte 1, .byte 9] = .abort := rfl
+theorem byte_shr_old_rule_aborts : sem_byte_shr [.byte 1, .byte 8] = .abort := rfl
+theorem byte_pow_old_rule_aborts : sem_byte_pow [.byte 2, .int 8] = .abort := rfl
+theorem byte_wrapping_div_old_rule_aborts : sem_byte_wrapping_div [.byte 1, .byte 0] = .abort := rfl
+theorem byte_overflowing_div_old_rule_aborts : sem_byte_overflowing_div [.byte 1, .byte 0] = .abort := rfl
+theorem char_is_digit_old_rule_aborts : sem_char_is_digit [.char 97, .int 99] = .abort := rfl
+theorem char_to_digit_old_rule_aborts : sem_char_to_digit [.char 97, .int 0] = .abort := rfl
+theorem string_slice_old_rule_aborts : sem_string_slice [.str [97, 98, 99], .int 2, .int 1] = .abort := rfl
+theorem st_string_slice_old_rule_aborts :
     sem_effect_st_string_slice [.sbuf [97, 98, 99], .int 2, .int 1] = .abort := rfl
-theorem random_gen_int_range_aborts : sem_random_gen_int_range [.int 1, .int 1] = .abort := rfl
+theorem random_gen_int_range_old_rule_aborts : sem_random_gen_int_range [.int 1, .int 1] = .abort := rfl
 
-/-! Exact abort conditions (so a *different* violation of the same primitive is distinguishable). -/
+/-! Exact panic conditions of the called functions (old rule: abort conditions). -/
 
-theorem int_shl_abort_iff (a n : Int) :
+theorem int_shl_old_rule_abort_iff (a n : Int) :
     sem_int_shl [.int a, .int n] = .abort ↔ ¬ (0 ≤ n ∧ n < 64) := by
   have h : sem_int_shl [.int a, .int n] = ofR .i (i64_shl a n) := rfl
   rw [h, ofR_abort_iff]; unfold i64_shl; split <;> simp [*]
 
-theorem int_arithmetic_shr_abort_iff (a n : Int) :
+theorem int_arithmetic_shr_old_rule_abort_iff (a n : Int) :
     sem_int_arithmetic_shr [.int a, .int n] = .abort ↔ ¬ (0 ≤ n ∧ n < 64) := by
   have h : sem_int_arithmetic_shr [.int a, .int n] = ofR .i (i64_shr a n) := rfl
   rw [h, ofR_abort_iff]; unfold i64_shr; split <;> simp [*]
 
-theorem int_abs_abort_iff (a : Int) : sem_int_abs [.int a] = .abort ↔ a = i64Min := by
+theorem int_abs_old_rule_abort_iff (a : Int) : sem_int_abs [.int a] = .abort ↔ a = i64Min := by
   have h : sem_int_abs [.int a] = ofR .i (i64_abs a) := rfl
   rw [h, ofR_abort_iff]; unfold i64_abs; split <;> simp [*]
 
 /-- `int::rem` guards the divisor against 0 (an error value) but not `MIN % -1`. -/
-theorem int_rem_abort_iff (a b : Int) :
+theorem int_rem_old_rule_abort_iff (a b : Int) :
     sem_int_rem [.int a, .int b] = .abort ↔ (a = i64Min ∧ b = -1) := by
   have h : sem_int_rem [.int a, .int b] = ofRRT .i (int_rem a b) := rfl
   rw [h, ofRRT_abort_iff]; unfold int_rem
@@ -114,7 +137,7 @@ theorem int_rem_abort_iff (a b : Int) :
     have : b = 0 := by simpa using hb
     subst this; simp
 
-theorem int_rem_euclid_abort_iff (a b : Int) :
+theorem int_rem_euclid_old_rule_abort_iff (a b : Int) :
     sem_int_rem_euclid [.int a, .int b] = .abort ↔ (a = i64Min ∧ b = -1) := by
   have h : sem_int_rem_euclid [.int a, .int b] = ofRRT .i (int_rem_euclid a b) := rfl
   rw [h, ofRRT_abort_iff]; unfold int_rem_euclid
@@ -127,52 +150,192 @@ theorem int_rem_euclid_abort_iff (a b : Int) :
     have : b = 0 := by simpa using hb
     subst this; simp
 
-theorem int_wrapping_div_abort_iff (a b : Int) :
+theorem int_wrapping_div_old_rule_abort_iff (a b : Int) :
     sem_int_wrapping_div [.int a, .int b] = .abort ↔ b = 0 := by
   have h : sem_int_wrapping_div [.int a, .int b] = ofR .i (i64_wrapping_div a b) := rfl
   rw [h, ofR_abort_iff]; unfold i64_wrapping_div; split <;> simp [*]
 
-theorem int_overflowing_div_abort_iff (a b : Int) :
+theorem int_overflowing_div_old_rule_abort_iff (a b : Int) :
     sem_int_overflowing_div [.int a, .int b] = .abort ↔ b = 0 := by
   have h : sem_int_overflowing_div [.int a, .int b]
       = ofR Res.pairIB (i64_overflowing_div a b) := rfl
   rw [h, ofR_abort_iff]; unfold i64_overflowing_div; split <;> simp [*]
 
-theorem int_from_str_radix_abort_iff (s : Bytes) (r : Int) :
+theorem int_from_str_radix_old_rule_abort_iff (s : Bytes) (r : Int) :
     sem_int_from_str_radix [.str s, .int r] = .abort ↔ ¬ (2 ≤ toU32 r ∧ toU32 r ≤ 36) := by
   have h : sem_int_from_str_radix [.str s, .int r]
       = ofR (Res.result .i) (i64_from_str_radix s (toU32 r)) := rfl
   rw [h, ofR_abort_iff]; unfold i64_from_str_radix; split <;> simp [*]
 
-theorem byte_shl_abort_iff (a n : Int) :
+theorem byte_shl_old_rule_abort_iff (a n : Int) :
     sem_byte_shl [.byte a, .byte n] = .abort ↔ ¬ n < 8 := by
   have h : sem_byte_shl [.byte a, .byte n] = ofR .b (u8_shl a n) := rfl
   rw [h, ofR_abort_iff]; unfold u8_shl; split <;> simp [*]
 
-theorem byte_wrapping_div_abort_iff (a b : Int) :
+theorem byte_wrapping_div_old_rule_abort_iff (a b : Int) :
     sem_byte_wrapping_div [.byte a, .byte b] = .abort ↔ b = 0 := by
   have h : sem_byte_wrapping_div [.byte a, .byte b] = ofR .b (u8_wrapping_div a b) := rfl
   rw [h, ofR_abort_iff]; unfold u8_wrapping_div; split <;> simp [*]
 
-theorem char_to_digit_abort_iff (c r : Int) :
+theorem char_to_digit_old_rule_abort_iff (c r : Int) :
     sem_char_to_digit [.char c, .int r] = .abort ↔ ¬ (2 ≤ toU32 r ∧ toU32 r ≤ 36) := by
   have h : sem_char_to_digit [.char c, .int r]
       = ofR (Res.opt .i) (char_to_digit c (toU32 r)) := rfl
   rw [h, ofR_abort_iff]; unfold char_to_digit; split <;> simp [*]
 
 /-- `string::slice` checks both indices for char boundaries (hence ≤ len) but never `start ≤ end`. -/
-theorem string_slice_abort_iff (s : Bytes) (a b : Int) :
+theorem string_slice_old_rule_abort_iff (s : Bytes) (a b : Int) :
     sem_string_slice [.str s, .int a, .int b] = .abort ↔
       (isCharBoundary s (toU64 a).toNat = true ∧ isCharBoundary s (toU64 b).toNat = true ∧
         (toU64 b).toNat < (toU64 a).toNat) := by
   have h : sem_string_slice [.str s, .int a, .int b] = ofRRT .s (string_slice s a b) := rfl
   rw [h, ofRRT_abort_iff]; exact string_slice_panic_iff s a b
 
-theorem random_gen_int_range_abort_iff (lo hi : Int) :
+theorem random_gen_int_range_old_rule_abort_iff (lo hi : Int) :
     sem_random_gen_int_range [.int lo, .int hi] = .abort ↔ ¬ lo < hi := by
   have h : sem_random_gen_int_range [.int lo, .int hi]
       = ofR (fun _ => Res.opaque) (random_gen_int_range lo hi) := rfl
   rw [h, ofR_abort_iff]; unfold random_gen_int_range; split <;> simp [*]
+
+/-! Current rule: exactly when each of these primitives returns an ERROR VALUE to the script. -/
+
+theorem caught_ofR {α} (f : α → Res) (r : R α) : catchUnwind (ofR f r) = .err ↔ ofR f r = .abort := by
+  rw [catchUnwind_err_iff]
+  constructor
+  · rintro (h | h)
+    · exact absurd h (ofR_ne_err f r)
+    · exact h
+  · exact Or.inr
+
+theorem int_shl_errors_iff (a n : Int) :
+    catchUnwind (sem_int_shl [.int a, .int n]) = .err ↔ ¬ (0 ≤ n ∧ n < 64) := by
+  have h : sem_int_shl [.int a, .int n] = ofR .i (i64_shl a n) := rfl
+  rw [h, caught_ofR, ← h]; exact int_shl_old_rule_abort_iff a n
+
+theorem int_arithmetic_shr_errors_iff (a n : Int) :
+    catchUnwind (sem_int_arithmetic_shr [.int a, .int n]) = .err ↔ ¬ (0 ≤ n ∧ n < 64) := by
+  have h : sem_int_arithmetic_shr [.int a, .int n] = ofR .i (i64_shr a n) := rfl
+  rw [h, caught_ofR, ← h]; exact int_arithmetic_shr_old_rule_abort_iff a n
+
+theorem int_abs_errors_iff (a : Int) : catchUnwind (sem_int_abs [.int a]) = .err ↔ a = i64Min := by
+  have h : sem_int_abs [.int a] = ofR .i (i64_abs a) := rfl
+  rw [h, caught_ofR, ← h]; exact int_abs_old_rule_abort_iff a
+
+/-- `int.rem`: the division by zero was always an error value; `MIN % -1` is one now. -/
+theorem int_rem_errors_iff (a b : Int) :
+    catchUnwind (sem_int_rem [.int a, .int b]) = .err ↔ (b = 0 ∨ (a = i64Min ∧ b = -1)) := by
+  rw [catchUnwind_err_iff, int_rem_old_rule_abort_iff]
+  have h : sem_int_rem [.int a, .int b] = ofRRT .i (int_rem a b) := rfl
+  rw [h, ofRRT_err_iff]
+  have : int_rem a b = .ret .panic ↔ b = 0 := by
+    unfold int_rem
+    split
+    · rename_i hb
+      constructor
+      · intro e
+        unfold i64_rem at e
+        simp only [hb, if_false] at e
+        split at e <;> simp [R.map] at e
+      · intro e; exact absurd e hb
+    · rename_i hb
+      have : b = 0 := by simpa using hb
+      simp [this]
+  rw [this]
+
+theorem int_rem_euclid_errors_iff (a b : Int) :
+    catchUnwind (sem_int_rem_euclid [.int a, .int b]) = .err ↔ (b = 0 ∨ (a = i64Min ∧ b = -1)) := by
+  rw [catchUnwind_err_iff, int_rem_euclid_old_rule_abort_iff]
+  have h : sem_int_rem_euclid [.int a, .int b] = ofRRT .i (int_rem_euclid a b) := rfl
+  rw [h, ofRRT_err_iff]
+  have : int_rem_euclid a b = .ret .panic ↔ b = 0 := by
+    unfold int_rem_euclid
+    split
+    · rename_i hb
+      constructor
+      · intro e
+        unfold i64_rem_euclid at e
+        simp only [hb, if_false] at e
+        split at e <;> simp [R.map] at e
+      · intro e; exact absurd e hb
+    · rename_i hb
+      have : b = 0 := by simpa using hb
+      simp [this]
+  rw [this]
+
+theorem int_wrapping_div_errors_iff (a b : Int) :
+    catchUnwind (sem_int_wrapping_div [.int a, .int b]) = .err ↔ b = 0 := by
+  have h : sem_int_wrapping_div [.int a, .int b] = ofR .i (i64_wrapping_div a b) := rfl
+  rw [h, caught_ofR, ← h]; exact int_wrapping_div_old_rule_abort_iff a b
+
+theorem int_overflowing_div_errors_iff (a b : Int) :
+    catchUnwind (sem_int_overflowing_div [.int a, .int b]) = .err ↔ b = 0 := by
+  have h : sem_int_overflowing_div [.int a, .int b] = ofR Res.pairIB (i64_overflowing_div a b) := rfl
+  rw [h, caught_ofR, ← h]; exact int_overflowing_div_old_rule_abort_iff a b
+
+theorem int_from_str_radix_errors_iff (s : Bytes) (r : Int) :
+    catchUnwind (sem_int_from_str_radix [.str s, .int r]) = .err ↔ ¬ (2 ≤ toU32 r ∧ toU32 r ≤ 36) := by
+  have h : sem_int_from_str_radix [.str s, .int r]
+      = ofR (Res.result .i) (i64_from_str_radix s (toU32 r)) := rfl
+  rw [h, caught_ofR, ← h]; exact int_from_str_radix_old_rule_abort_iff s r
+
+theorem byte_shl_errors_iff (a n : Int) :
+    catchUnwind (sem_byte_shl [.byte a, .byte n]) = .err ↔ ¬ n < 8 := by
+  have h : sem_byte_shl [.byte a, .byte n] = ofR .b (u8_shl a n) := rfl
+  rw [h, caught_ofR, ← h]; exact byte_shl_old_rule_abort_iff a n
+
+theorem byte_wrapping_div_errors_iff (a b : Int) :
+    catchUnwind (sem_byte_wrapping_div [.byte a, .byte b]) = .err ↔ b = 0 := by
+  have h : sem_byte_wrapping_div [.byte a, .byte b] = ofR .b (u8_wrapping_div a b) := rfl
+  rw [h, caught_ofR, ← h]; exact byte_wrapping_div_old_rule_abort_iff a b
+
+theorem char_to_digit_errors_iff (c r : Int) :
+    catchUnwind (sem_char_to_digit [.char c, .int r]) = .err ↔ ¬ (2 ≤ toU32 r ∧ toU32 r ≤ 36) := by
+  have h : sem_char_to_digit [.char c, .int r] = ofR (Res.opt .i) (char_to_digit c (toU32 r)) := rfl
+  rw [h, caught_ofR, ← h]; exact char_to_digit_old_rule_abort_iff c r
+
+theorem random_gen_int_range_errors_iff (lo hi : Int) :
+    catchUnwind (sem_random_gen_int_range [.int lo, .int hi]) = .err ↔ ¬ lo < hi := by
+  have h : sem_random_gen_int_range [.int lo, .int hi]
+      = ofR (fun _ => Res.opaque) (random_gen_int_range lo hi) := rfl
+  rw [h, caught_ofR, ← h]; exact random_gen_int_range_old_rule_abort_iff lo hi
+
+/-- `string.slice` returns the slice exactly for `start ≤ end`, both on char boundaries; every other index pair is
+    an error value (the off-boundary ones through the wrapper's own check, `end < start` through the caught panic). -/
+theorem string_slice_errors_iff (s : Bytes) (a b : Int) :
+    catchUnwind (sem_string_slice [.str s, .int a, .int b]) = .err ↔
+      ¬ (isCharBoundary s (toU64 a).toNat = true ∧ isCharBoundary s (toU64 b).toNat = true ∧
+          (toU64 a).toNat ≤ (toU64 b).toNat) := by
+  rw [catchUnwind_err_iff, string_slice_old_rule_abort_iff]
+  have h : sem_string_slice [.str s, .int a, .int b] = ofRRT .s (string_slice s a b) := rfl
+  rw [h, ofRRT_err_iff]
+  have : string_slice s a b = .ret .panic ↔
+      ¬ (isCharBoundary s (toU64 a).toNat = true ∧ isCharBoundary s (toU64 b).toNat = true) := by
+    unfold string_slice
+    simp only []
+    split
+    · rename_i hb
+      simp only [Bool.and_eq_true] at hb
+      constructor
+      · intro e
+        unfold str_index at e
+        split at e <;> simp [R.map] at e
+      · intro e; exact absurd hb e
+    · rename_i hb
+      simp only [Bool.and_eq_true] at hb
+      simp [hb]
+  rw [this]
+  constructor
+  · rintro (h1 | ⟨h1, h2, h3⟩)
+    · intro ⟨x, y, _⟩; exact h1 ⟨x, y⟩
+    · intro ⟨_, _, z⟩; omega
+  · intro hn
+    by_cases hb : isCharBoundary s (toU64 a).toNat = true ∧ isCharBoundary s (toU64 b).toNat = true
+    · right
+      refine ⟨hb.1, hb.2, ?_⟩
+      by_cases hle : (toU64 a).toNat ≤ (toU64 b).toNat
+      · exact absurd ⟨hb.1, hb.2, hle⟩ hn
+      · omega
+    · left; exact hb
 
 /-- With the missing check added (`start ≤ end`), `string::slice` can no longer abort. -/
 theorem string_slice_fixed (s : Bytes) (a b : Int) :
@@ -192,40 +355,58 @@ theorem runtime_panic_is_error_value {α} (f : α → Res) : ofRRT f (.ret .pani
 
 /-! ## Part (ii): the stack after a failed evaluation -/
 
-/-- What `reset_stack` restores after ANY run that failed: the frame stack — and nothing else; every value
-    the run had pushed stays on the value stack (thread.rs:2972, stack.rs:871: `frames.pop()` only). -/
-theorem reset_frames_only (s : Stack) (ops : List Op) :
+/-- **Main theorem, second half.** After ANY run that failed (any sequence of pushes and frame entries) the
+    error path of `call_thunk_top`/`execute_io_top` (`reset_stack` + popping the left-over values,
+    thread.rs:1137-1151) leaves the thread exactly as it was before the run: same frames, same number of
+    values — nothing of the failed run stays rooted or counts against the stack limit. -/
+theorem reset_restores (s : Stack) (ops : List Op) :
+    resetFixed s.frames.length s.values (s.run ops) = s :=
+  resetFixed_after_run s ops
+
+/-- Hence any interleaving of failing and succeeding top-level evaluations (`run_expr`) leaves the thread as a
+    fresh one.  `_partial`: histories without failing host calls of Gluon functions, see `history_clean_fails`. -/
+theorem history_clean_partial (steps : List Step) (s : Stack) (h : ∀ st ∈ steps, st.topLevel = true) :
+    runHistory resetFixed steps s = s :=
+  history_fixed steps s h
+
+/-- Full statement (all kinds of evaluation, including host calls of Gluon functions) is FALSE on the unchanged
+    tree (D16): `Function::call` → `call_first` (vm/src/api/function.rs:445-464) propagates the error with `?`
+    without `reset_stack`: the frames and values of the failed call stay. -/
+theorem host_call_error_leaves (reset : Nat → Nat → Stack → Stack) (s : Stack) (d v : Nat) :
+    (stepWith reset s (.hostFail d v)).frames.length = s.frames.length + d ∧
+    (stepWith reset s (.hostFail d v)).values = s.values + v :=
+  hostFail_leaves reset s d v
+
+theorem history_clean_fails : ∃ steps, runHistory resetFixed steps Stack.base ≠ Stack.base :=
+  ⟨[.hostFail 2 3], by decide⟩
+
+/-! Old rule (before the D5 fix: `reset_stack` alone) — regression statements. -/
+
+/-- `reset_stack` restores the frame stack — and nothing else; every value the run had pushed stays on the
+    value stack (thread.rs:2989, stack.rs:871: `frames.pop()` only). -/
+theorem reset_old_rule_frames_only (s : Stack) (ops : List Op) :
     resetStack s.frames.length s.values (s.run ops) = ⟨s.frames, s.values + pushed ops⟩ :=
   reset_after_run s ops
 
-/-- The property's second half fails: after a failed run the stack is not what it was. -/
-theorem reset_restores_fails :
+/-- Under the old rule the second half failed: after a failed run the stack was not what it had been. -/
+theorem reset_restores_old_rule_fails :
     ∃ (s : Stack) (ops : List Op), resetStack s.frames.length s.values (s.run ops) ≠ s :=
   ⟨Stack.base, [.push 3, .enter 1], by decide⟩
 
 /-- … exactly when the failed run had pushed something. -/
-theorem reset_restores_iff (s : Stack) (ops : List Op) :
+theorem reset_restores_old_rule_iff (s : Stack) (ops : List Op) :
     resetStack s.frames.length s.values (s.run ops) = s ↔ pushed ops = 0 := by
-  rw [reset_frames_only]
+  rw [reset_old_rule_frames_only]
   constructor
   · intro h
     have := congrArg Stack.values h
     simp at this; exact this
   · intro h; simp [h]
 
-/-- The repaired error path (also truncate the values to their length at entry) restores the thread. -/
-theorem reset_restores_fixed (s : Stack) (ops : List Op) :
-    resetFixed s.frames.length s.values (s.run ops) = s :=
-  resetFixed_after_run s ops
-
-/-- Over a whole history the leaks of the failed runs add up; successful runs in between reclaim nothing. -/
-theorem history_leaks (steps : List Step) (s : Stack) :
+/-- Under the old rule the leaks of the failed runs added up over a history; successful runs reclaimed nothing. -/
+theorem history_old_rule_leaks (steps : List Step) (s : Stack) (h : ∀ st ∈ steps, st.topLevel = true) :
     runHistory resetStack steps s = ⟨s.frames, s.values + leakSum steps⟩ :=
-  Proofs.Frames.history_leaks steps s
-
-/-- With the repaired error path any interleaving of failing and succeeding runs leaves the thread as it was. -/
-theorem history_fixed_clean (steps : List Step) (s : Stack) : runHistory resetFixed steps s = s :=
-  history_fixed steps s
+  Proofs.Frames.history_leaks steps s h
 
 /-! ## Non-vacuity -/
 
@@ -235,10 +416,14 @@ example : sem_int_rem [.int 7, .int 0] = .err := rfl
 example : sem_int_shl [.int 1, .int 63] = .ok (.i i64Min) := rfl
 -- a guarded primitive: the first entry of `guardedSems` (one string comparison per table entry passed)
 example : outcome "std.int.prim.checked_rem" [.int i64Min, .int (-1)] = .ok (.d 0 []) := rfl
+example : outcome "std.int.prim.from_str_radix" [.str [49, 50], .int 99] = .err := rfl
+example : catchUnwind (sem_int_shl [.int 1, .int 100]) = .err := rfl
+example : catchUnwind (sem_string_slice [.str [97, 98, 99], .int 2, .int 1]) = .err := rfl
 example : ofRRT Res.i (array_index [1, 2] 5) = .err := rfl
 example : ofRRT intsRes (array_slice [1, 2, 3] 2 1) = .err := rfl
 example : isCharBoundary [97, 98, 99] 2 = true ∧ isCharBoundary [97, 98, 99] 1 = true ∧ 1 < 2 := by decide
 example : runHistory resetStack [.fail 3 10, .ok 2 5, .fail 1 4] Stack.base = ⟨[0], 14⟩ := by decide
+example : runHistory resetFixed [.fail 3 10, .ok 2 5, .fail 1 4] Stack.base = Stack.base := by decide
 example : pushed [.push 3, .enter 1] = 3 := rfl
 
 end GluonModel.Props.C06
